@@ -1,8 +1,252 @@
 import Drive.Util
-/-! Trace validator for the `buffer` stream(s).  (stub: to be filled in) -/
-namespace Drive.Buffer
+import RV.Model.Buffer
+/-!
+Trace validator for the `buffer` stream (C11).
 
-def run (_h : IO.FS.Stream) : IO Verdict :=
-  return { ok := false, lines := 0, checks := 0, msg := "component buffer not implemented" }
+Records (one per line, written by harness/buffer_test.go):
+
+    new <calloc|mmap|auto> <capacity> <autoMmapAfter> <maxSz>
+    st <LenNoPadding> <curSz> <calloc|mmap>           bookkeeping after every call
+    write|wslice|salloc|alloc|aoff <hex> <result>     result: ok | n=<k> | off=<k> | panic:maxsize | panic:…
+    reset
+    bytes <hex> | bytesh <len> <fnv1a64>              Bytes()
+    iter <count> <hex>… | iterh <count> <fnv>         slices handed out by SliceIterate
+    offs <count> <n>… | offsh <count> <fnv>           SliceOffsets()
+    slice <off> <hex> <next> | sliceh <off> <len> <fnv> <next>
+    sort <less> <start> <end> <result> <hex of the sorted range>
+
+Everything is compared for equality with the model, except the order of slices
+that are *equivalent* under the comparison function after a sort (`sort.Slice`
+is not stable, so the model leaves their order open): there the observed range
+must be a permutation of the model's range that is position-wise equivalent to
+the model's result computed with a stable sort; the observed order is then adopted.
+-/
+namespace Drive.Buffer
+open RV.Buffer
+
+structure St where
+  b : Option Buf := none
+
+def toBytes (a : Array (BitVec 8)) : Bytes := a.toList
+
+def lexLt : Bytes → Bytes → Bool
+  | [], [] => false
+  | [], _ :: _ => true
+  | _ :: _, [] => false
+  | a :: as, b :: bs => if a.toNat < b.toNat then true else if b.toNat < a.toNat then false else lexLt as bs
+
+def lastKey (a : Bytes) : Int :=
+  match a.getLast? with
+  | none => -1
+  | some x => x.toNat
+
+def lessOf (name : String) : Option (Bytes → Bytes → Bool) :=
+  match name with
+  | "bytes" => some lexLt
+  | "len" => some (fun a b => a.length < b.length)
+  | "last" => some (fun a b => lastKey a < lastKey b)
+  | "false" => some (fun _ _ => false)
+  | "rev" => some (fun a b => lexLt b a)
+  | _ => none
+
+def modeName : Mode → String
+  | .calloc => "calloc"
+  | .mmap => "mmap"
+
+def faultName : Fault → String
+  | .maxSize => "panic:maxsize"
+  | .startZero => "panic:startzero"
+  | .notCalloc => "panic:notcalloc"
+  | .bounds => "panic:bounds"
+  | .assertFail => "fatal:assert"
+  | .fuel => "model:fuel"
+
+def outName : Out → String
+  | .unit => "ok"
+  | .n k => s!"n={k}"
+  | .off k => s!"off={k}"
+  | .fault f => faultName f
+
+/-- decode a sequence of length-prefixed slices (validator side, independent of `slice`) -/
+partial def decodeAll (d : Bytes) (acc : Array Bytes) : Option (Array Bytes) :=
+  if d.isEmpty then some acc
+  else if d.length < 8 then none
+  else
+    let n := beNat (d.take 8)
+    let rest := d.drop 8
+    if rest.length < n then none else decodeAll (rest.drop n) (acc.push (rest.take n))
+
+def hashSlices (ss : List Bytes) : BitVec 64 :=
+  ss.foldl (fun h s => (be64 (w s.length) ++ s).foldl (fun h b => (h ^^^ b.setWidth 64) * 1099511628211#64) h)
+    14695981039346656037#64
+
+def hashOffsets (os : List Nat) : BitVec 64 :=
+  os.foldl (fun h o => (be64 (w o)).foldl (fun h b => (h ^^^ b.setWidth 64) * 1099511628211#64) h)
+    14695981039346656037#64
+
+def nextInt : Option Nat → Int
+  | none => -1
+  | some n => n
+
+def doOp (b : Buf) (op : Op) (res : String) : Except String (St × Nat) :=
+  let r := step b op
+  if outName r.2 == res then .ok ({ b := some r.1 }, 1)
+  else .error s!"result: implementation {res}, model {outName r.2}"
+
+def checkSort (b : Buf) (lname : String) (start end_ : Nat) (res : String) (obs : Bytes) :
+    Except String (St × Nat) :=
+  match lessOf lname with
+  | none => .error s!"unknown comparison function {lname}"
+  | some less =>
+    match sortSliceBetween insertionSort less b start end_ with
+    | .error f =>
+      if faultName f == res then .ok ({ b := some b }, 1)
+      else .error s!"sort: implementation {res}, model {faultName f}"
+    | .ok m =>
+      if res != "ok" then .error s!"sort: implementation {res}, model ok"
+      else if start ≥ end_ then
+        if m.data == b.data then .ok ({ b := some m }, 1) else .error "sort of an empty range changed the model"
+      else
+        let mr := region m.data start end_
+        if mr == obs then .ok ({ b := some m }, 1)
+        else if mr.length != obs.length then .error "sort: the sorted range has a different length than in the model"
+        else
+          -- differs from the stable order: must differ only by the order of equivalent slices
+          match decodeAll mr #[], decodeAll obs #[] with
+          | some ms, some os =>
+            if ms.size != os.size then .error "sort: number of slices in the range differs from the model"
+            else
+              let equiv := (ms.toList.zip os.toList).all (fun p => !less p.1 p.2 && !less p.2 p.1)
+              let le := fun (a c : Bytes) => !lexLt c a
+              let perm := ms.toList.mergeSort le == os.toList.mergeSort le
+              if !equiv then .error "sort: observed order is not position-wise equivalent to the model's sorted order"
+              else if !perm then .error "sort: observed slices are not a permutation of the model's slices"
+              else .ok ({ b := some { m with data := overwrite m.data start obs } }, 1)
+          | _, _ => .error "sort: observed range is not a sequence of length-prefixed slices"
+
+def step (st : St) (_n : Nat) (ws : List String) : Except String (St × Nat) :=
+  match ws with
+  | ["new", kind, cap, thr, maxSz] =>
+    match nat? cap, nat? thr, nat? maxSz with
+    | some cap, some thr, some maxSz =>
+      let mk := fun (b : Buf) => if maxSz != 0 then withMaxSize b maxSz else b
+      match kind with
+      | "calloc" => .ok ({ b := some (mk (newBuffer cap)) }, 0)
+      | "mmap" => .ok ({ b := some (mk (newBufferTmp cap)) }, 0)
+      | "auto" =>
+        match withAutoMmap (newBuffer cap) thr with
+        | .ok b => .ok ({ b := some (mk b) }, 0)
+        | .error f => .error s!"WithAutoMmap: model {faultName f}"
+      | _ => .error "bad buffer kind"
+    | _, _, _ => .error "bad new"
+  | _ =>
+  match st.b with
+  | none => .error "record before new"
+  | some b =>
+  match ws with
+  | ["st", len, cur, mode] =>
+    match nat? len, nat? cur with
+    | some len, some cur =>
+      if lenNoPadding b != len then .error s!"LenNoPadding: implementation {len}, model {lenNoPadding b}"
+      else if b.curSz != cur then .error s!"curSz: implementation {cur}, model {b.curSz}"
+      else if modeName b.mode != mode then .error s!"mode: implementation {mode}, model {modeName b.mode}"
+      else if b.data.length != b.offset then .error "model invariant: data.length ≠ offset"
+      else .ok (st, 3)
+    | _, _ => .error "bad st"
+  | ["bytesh", len, hv] =>
+    match nat? len, u64? hv with
+    | some len, some hv =>
+      let d := bytes b
+      if d.length != len then .error s!"Bytes(): implementation has {len} bytes, model {d.length}"
+      else if fnv1a d != hv then .error "Bytes(): hash differs from the model"
+      else .ok (st, 1)
+    | _, _ => .error "bad bytesh"
+  | ["iterh", cnt, hv] =>
+    match nat? cnt, u64? hv with
+    | some cnt, some hv =>
+      match sliceIterate b with
+      | .error f => .error s!"SliceIterate: model {faultName f}"
+      | .ok ss =>
+        if ss.length != cnt then .error s!"SliceIterate: implementation {cnt} slices, model {ss.length}"
+        else if hashSlices ss != hv then .error "SliceIterate: slices differ from the model"
+        else .ok (st, 1)
+    | _, _ => .error "bad iterh"
+  | ["offsh", cnt, hv] =>
+    match nat? cnt, u64? hv with
+    | some cnt, some hv =>
+      match sliceOffsets b with
+      | .error f => .error s!"SliceOffsets: model {faultName f}"
+      | .ok os =>
+        if os.length != cnt then .error s!"SliceOffsets: implementation {cnt} offsets, model {os.length}"
+        else if hashOffsets os != hv then .error "SliceOffsets: offsets differ from the model"
+        else .ok (st, 1)
+    | _, _ => .error "bad offsh"
+  | ["slice", off, res] =>
+    match nat? off with
+    | some off =>
+      match slice b off with
+      | .error f => .error s!"Slice({off}): implementation {res}, model {faultName f}"
+      | .ok _ => .error s!"Slice({off}): implementation {res}, model ok"
+    | none => .error "bad slice"
+  | "iter" :: cnt :: hs =>
+    match nat? cnt, hs.mapM parseHex with
+    | some cnt, some ps =>
+      match sliceIterate b with
+      | .error f => .error s!"SliceIterate: model {faultName f}"
+      | .ok ss =>
+        if cnt != ps.length then .error "bad iter count"
+        else if ss == ps.map toBytes then .ok (st, 1) else .error "SliceIterate: slices differ from the model"
+    | _, _ => .error s!"SliceIterate: implementation {cnt}"
+  | "offs" :: cnt :: os =>
+    match nat? cnt, os.mapM nat? with
+    | some cnt, some os =>
+      match sliceOffsets b with
+      | .error f => .error s!"SliceOffsets: model {faultName f}"
+      | .ok mo =>
+        if cnt != os.length then .error "bad offs count"
+        else if mo == os then .ok (st, 1) else .error s!"SliceOffsets: implementation {os}, model {mo}"
+    | _, _ => .error s!"SliceOffsets: implementation {cnt}"
+  | [op, hex, res] =>
+    match parseHex hex with
+    | none => .error s!"bad hex in {op}"
+    | some p =>
+      let p := toBytes p
+      match op with
+      | "write" => doOp b (.write p) res
+      | "wslice" => doOp b (.writeSlice p) res
+      | "salloc" => doOp b (.sliceAllocate p) res
+      | "alloc" => doOp b (.allocate p) res
+      | "aoff" => doOp b (.allocateOffset p) res
+      | _ => .error s!"unknown record {ws}"
+  | ["reset"] => .ok ({ b := some (reset b) }, 0)
+  | ["bytes", hex] =>
+    match parseHex hex with
+    | none => .error "bad hex in bytes"
+    | some p => if toBytes p == bytes b then .ok (st, 1) else .error "Bytes() differs from the model"
+  | ["slice", off, hex, next] =>
+    match nat? off, parseHex hex, int? next with
+    | some off, some p, some next =>
+      match slice b off with
+      | .error f => .error s!"Slice({off}): model {faultName f}"
+      | .ok (s, nx) =>
+        if s == toBytes p && nextInt nx == next then .ok (st, 1)
+        else .error s!"Slice({off}): implementation next={next}, model next={nextInt nx} (or the slices differ)"
+    | _, _, _ => .error "bad slice"
+  | ["sliceh", off, len, hv, next] =>
+    match nat? off, nat? len, u64? hv, int? next with
+    | some off, some len, some hv, some next =>
+      match slice b off with
+      | .error f => .error s!"Slice({off}): model {faultName f}"
+      | .ok (s, nx) =>
+        if s.length == len && fnv1a s == hv && nextInt nx == next then .ok (st, 1)
+        else .error s!"Slice({off}): differs from the model"
+    | _, _, _, _ => .error "bad sliceh"
+  | ["sort", lname, start, end_, res, hex] =>
+    match nat? start, nat? end_, parseHex hex with
+    | some start, some end_, some obs => checkSort b lname start end_ res (toBytes obs)
+    | _, _, _ => .error "bad sort"
+  | _ => .error s!"unknown record {ws}"
+
+def run (h : IO.FS.Stream) : IO Verdict := runLines h ({} : St) step
 
 end Drive.Buffer
